@@ -19,7 +19,8 @@ Proofs/GenTieEvalDerivSurfRat Proofs/GenTieDerivSurfShape Proofs/GenTieEvalDeriv
 Gen/Compatibility Proofs/GenTieCompat Proofs/GenTieFlip
 Gen/OperationsInternal Gen/UtilitiesB Proofs/GenTieFindCtrlpts Proofs/GenTieCheckParams
 Gen/PreludeExt2 Gen/FittingB Proofs/GenTieFitB Proofs/GenTieFitSurf Gen/LinalgB Proofs/GenTieLinAlgB Proofs/GenTieLinAlgSqrt
-Gen/LinalgC Gen/VoxelizeB Proofs/GenTieVoxelGrid"
+Gen/LinalgC Gen/VoxelizeB Proofs/GenTieVoxelGrid
+Gen/FittingC Proofs/GenTieApprox"
 start="$1"; go=1; [ -n "$start" ] && go=0
 for f in $FILES; do
   [ "$f" = "$start" ] && go=1
